@@ -76,6 +76,13 @@ struct Sk {
   // images that store a hash table in unspecified order are compared after sorting that section (written from the layout, not via the library)
   virtual Bytes canonical(int variant, const Bytes& img) const { (void)variant; return img; }
   virtual bool can_continue() const { return true; }   // restored object accepts feed()/merge()
+  // false: the image of this state, in this variant, holds the logical content but not the internal arrangement that decides how later input is
+  // clustered (t-digest: a single value is written as a value, whether it sat in the buffer or in a centroid); continuing is then compared on obs_stable()
+  // false: the object already breaks an invariant of its own that another property reports (ebpps after certain merges holds one item more than its c says -
+  // the recorded C18 finding); what such an object writes and reads back is not judged by the storage worlds
+  virtual bool state_consistent() const { return true; }
+  virtual bool continue_is_exact(int variant) const { (void)variant; return true; }
+  virtual std::string obs_stable() const { return obs(true); }
 };
 
 inline std::string d2s(double d) { return sim::hexd(d); }
